@@ -26,6 +26,23 @@ What is read (fail closed on any other shape):
     _add_custom_parameters           the DataArray of a vector-valued parameter: anonymous dimension (dim_0 for
                                      all) or its own dim_<n>                             -> cf_custom_dims_distinct
 
+    Observation._get_parameter_types the key -> type dict is rebuilt from the steps enabled NOW on every run, or the dict
+                                     kept in Observation.parameter_types is updated (keys of earlier runs of the
+                                     same object stay)                                   -> cf_types_fresh
+
+No state on the run path (fail closed; `_no_hidden_state`): the same Observation / parameter-mode object may be run
+again after its configuration was edited, and every run must see the configuration at that time.  In misc.py,
+observation.py, observation_dask.py, parameter_values.py, evaluator.py (and the key access of pipelines/processor.py)
+  * the dataclass fields of ProductMode / SequentialMode are exactly `parameters`, of CustomMode `parameters` and
+    `custom_data`; no other class-level assignment; Observation.__init__ and ParameterValues.__init__ set exactly the
+    known attributes;
+  * no function writes an attribute or an item of `self` / `cls` / one of its arguments (assignment, augmented
+    assignment, del, setattr, __dict__, vars(), an in-place method such as .update/.append/.clear/.setdefault) --
+    except the constructors, the property setters and the recognised shapes of _get_parameter_types;
+  * no memoisation: no lru_cache / cache / cached_property / memoize (decorator, call or import), only the decorators
+    property / classmethod / staticmethod / dataclass / <p>.setter / deprecated; no `global` / `nonlocal`; no
+    module-level variable other than the known aliases; no mutable default argument.
+
 The loops of the modes (itertools.product, the sequential double loop, the column cursor of custom mode) are not
 tables; they are modelled by hand in Model/ParamSpace.v and tied by the correspondence.
 """
@@ -38,6 +55,10 @@ from .common import HEADER, body_no_doc, fail, find_func, parse
 
 MISC = "pyxel/observation/misc.py"
 OBS = "pyxel/observation/observation.py"
+DASK = "pyxel/observation/observation_dask.py"
+PVAL = "pyxel/observation/parameter_values.py"
+EVAL = "pyxel/evaluator.py"
+PROC = "pyxel/pipelines/processor.py"
 
 
 def _u(node) -> str:
@@ -287,13 +308,245 @@ def _sequential_create_params(tree) -> bool:
     fail(fn, "SequentialMode.create_params: neither zip(*all_steps.values()) nor rows from get_parameters_item(processor)")
 
 
+def _parameter_types(tree) -> bool:
+    """-> cf_types_fresh"""
+    fn = find_func(tree, "_get_parameter_types", "Observation")
+    if [a.arg for a in fn.args.args] != ["self"]:
+        fail(fn, "_get_parameter_types signature")
+    b = body_no_doc(fn)
+    if not b or not (isinstance(b[-1], ast.Return) and _u(b[-1].value) == "self.parameter_types"):
+        fail(fn, "_get_parameter_types must end with `return self.parameter_types`")
+    b = b[:-1]
+
+    def is_update_loop(st) -> bool:
+        if not (isinstance(st, ast.For) and isinstance(st.target, ast.Name) and not st.orelse
+                and _u(st.iter) == "self.parameter_mode.enabled_steps" and len(st.body) == 1):
+            return False
+        v = st.target.id
+        return _u(st.body[0]) in (f"self.parameter_types.update({{{v}.key: {v}.type}})",
+                                  f"self.parameter_types[{v}.key] = {v}.type")
+
+    def is_fresh_comp(st) -> bool:
+        tgt = st.targets[0] if isinstance(st, ast.Assign) and len(st.targets) == 1 else getattr(st, "target", None)
+        val = getattr(st, "value", None)
+        if not (isinstance(st, (ast.Assign, ast.AnnAssign)) and tgt is not None and _u(tgt) == "self.parameter_types"
+                and isinstance(val, ast.DictComp) and len(val.generators) == 1):
+            return False
+        g = val.generators[0]
+        return (isinstance(g.target, ast.Name) and not g.ifs and _u(g.iter) == "self.parameter_mode.enabled_steps"
+                and _u(val.key) == f"{g.target.id}.key" and _u(val.value) == f"{g.target.id}.type")
+
+    def is_reset(st) -> bool:
+        return _u(st) in ("self.parameter_types.clear()", "self.parameter_types = {}", "self.parameter_types = dict()")
+
+    if len(b) == 1 and is_update_loop(b[0]):
+        return False
+    if len(b) == 1 and is_fresh_comp(b[0]):
+        return True
+    if len(b) == 2 and is_reset(b[0]) and is_update_loop(b[1]):
+        return True
+    fail(fn, "_get_parameter_types: unknown shape")
+
+
+# ---------------------------------------------------------------------------------------- no state on the run path
+
+_MEMO_NAMES = {"lru_cache", "cache", "cached_property", "memoize", "memoized", "Memoized", "cachetools", "joblib",
+               "functools"}
+_OK_DECORATORS = {"property", "classmethod", "staticmethod", "dataclass", "dataclass(frozen=True)",
+                  "abstractmethod", "typing.no_type_check"}
+_INPLACE = {"update", "append", "extend", "insert", "pop", "popitem", "clear", "setdefault", "remove", "sort",
+            "reverse", "add", "discard", "__setitem__", "__delitem__", "__setattr__", "move_to_end"}
+_MUTABLE_CALLS = {"dict", "list", "set", "defaultdict", "OrderedDict", "Counter", "deque", "WeakKeyDictionary",
+                  "WeakValueDictionary"}
+
+# attributes the constructors may set
+_INIT_ATTRS = {
+    ("Observation", "__init__"): {"outputs", "readout", "parameter_mode", "working_directory", "with_dask",
+                                  "parameter_types", "_result_type", "_pipeline_seed"},
+    ("ParameterValues", "__init__"): {"type", "_key", "_values", "_short_name", "_enabled", "_logarithmic",
+                                      "_boundaries", "_current"},
+}
+_MODE_FIELDS = {"ProductMode": ["parameters"], "SequentialMode": ["parameters"],
+                "CustomMode": ["parameters", "custom_data"],
+                "ParameterEntry": ["index", "parameters", "run_index"],
+                "CustomParameterEntry": ["index", "parameters", "run_index"]}
+_MODULE_VARS = {MISC: {"ParametersType"}, OBS: set(), DASK: set(), PVAL: set(), EVAL: {"__all__"}}
+
+
+def _root(node):
+    while isinstance(node, (ast.Attribute, ast.Subscript, ast.Starred)):
+        node = node.value
+    if isinstance(node, ast.Call):
+        if isinstance(node.func, ast.Name) and node.func.id == "type" and len(node.args) == 1:
+            return _root(node.args[0])          # type(self).<...> is state shared by all objects
+        return _root(node.func)
+    return node.id if isinstance(node, ast.Name) else None
+
+
+def _targets(st):
+    if isinstance(st, ast.Assign):
+        out = list(st.targets)
+    elif isinstance(st, ast.AnnAssign):
+        out = [st.target] if st.value is not None else []
+    elif isinstance(st, ast.AugAssign):
+        out = [st.target]
+    elif isinstance(st, ast.Delete):
+        out = list(st.targets)
+    elif isinstance(st, (ast.For, ast.AsyncFor)):
+        out = [st.target]
+    elif isinstance(st, (ast.With, ast.AsyncWith)):
+        out = [i.optional_vars for i in st.items if i.optional_vars is not None]
+    elif isinstance(st, ast.NamedExpr):
+        out = [st.target]
+    else:
+        return []
+    flat = []
+    while out:
+        t = out.pop()
+        if isinstance(t, (ast.Tuple, ast.List)):
+            out += list(t.elts)
+        elif isinstance(t, ast.Starred):
+            out.append(t.value)
+        else:
+            flat.append(t)
+    return flat
+
+
+def _check_function(rel: str, cls: str | None, fn: ast.FunctionDef, allowed_self_attrs=None, allow_types=False):
+    """No write to an attribute / item of self, cls or an argument of `fn`; no global / nonlocal; no mutable default."""
+    where = f"{rel}: {cls + '.' if cls else ''}{fn.name}"
+    a = fn.args
+    params = {x.arg for x in a.posonlyargs + a.args + a.kwonlyargs}
+    if a.vararg:
+        params.add(a.vararg.arg)
+    if a.kwarg:
+        params.add(a.kwarg.arg)
+    guarded = params | {"self", "cls"}
+    for d in list(a.defaults) + [d for d in a.kw_defaults if d is not None]:
+        if isinstance(d, (ast.Dict, ast.List, ast.Set, ast.ListComp, ast.DictComp, ast.SetComp)) or \
+                (isinstance(d, ast.Call) and _root(d.func) in _MUTABLE_CALLS):
+            fail(d, f"{where}: mutable default argument (state kept between calls)")
+    # a name re-bound inside the function is a local from then on: only the parameters that are never re-bound as a
+    # plain name count (`data_tree = data_tree.map_over_datasets(...)` makes a new object)
+    rebound = set()
+    for n in ast.walk(fn):
+        for t in _targets(n):
+            if isinstance(t, ast.Name):
+                rebound.add(t.id)
+    guarded -= (rebound - {"self", "cls"})
+    local_names = rebound - {"self", "cls"}
+    for n in ast.walk(fn):
+        if isinstance(n, (ast.Global, ast.Nonlocal)):
+            fail(n, f"{where}: global / nonlocal state")
+        for t in _targets(n):
+            # anything that is not a local of this function: self / cls / an argument / a module-level name (a
+            # function attribute or a module-level container used as a memo)
+            if isinstance(t, (ast.Attribute, ast.Subscript)) and (_root(t) in guarded or _root(t) not in local_names):
+                txt = _u(t)
+                if allowed_self_attrs is not None and isinstance(t, ast.Attribute) and _u(t.value) == "self" \
+                        and t.attr in allowed_self_attrs:
+                    continue
+                if allow_types and txt.startswith("self.parameter_types"):
+                    continue
+                fail(n, f"{where}: writes {txt} (state of the object / of an argument written on the run path)")
+        if isinstance(n, ast.Call):
+            f = n.func
+            if isinstance(f, ast.Name) and f.id in ("setattr", "delattr", "vars", "globals"):
+                fail(n, f"{where}: {f.id}() (attributes written by name)")
+            if isinstance(f, ast.Attribute) and f.attr == "__setattr__":
+                fail(n, f"{where}: __setattr__")
+            if isinstance(f, ast.Attribute) and f.attr in _INPLACE and _root(f.value) in guarded \
+                    and isinstance(f.value, (ast.Attribute, ast.Subscript, ast.Name)):
+                if allow_types and _u(f.value) == "self.parameter_types":
+                    continue
+                # a method of the same name on a non-container argument cannot be told apart: fail closed
+                fail(n, f"{where}: in-place {f.attr}() on {_u(f.value)} (state of the object / of an argument)")
+        if isinstance(n, ast.Attribute) and n.attr == "__dict__":
+            fail(n, f"{where}: __dict__ (attributes written by name)")
+
+
+def _check_decorators(rel: str, node):
+    for d in node.decorator_list:
+        t = _u(d)
+        if t in _OK_DECORATORS or t.endswith(".setter") or t.startswith("deprecated(") or t.startswith("dataclass("):
+            continue
+        fail(d, f"{rel}: {node.name}: decorator @{t} (only property / classmethod / staticmethod / dataclass / "
+                "<p>.setter / deprecated are known not to keep state)")
+
+
+def _check_module(rel: str, tree: ast.Module, whole: bool = True, only: tuple = ()):
+    """The fail-closed net over one module.  whole=False: only the memoisation names and the functions in `only`."""
+    for n in ast.walk(tree):
+        if isinstance(n, ast.Name) and n.id in _MEMO_NAMES:
+            fail(n, f"{rel}: memoisation ({n.id})")
+        if isinstance(n, ast.Attribute) and n.attr in _MEMO_NAMES:
+            fail(n, f"{rel}: memoisation ({n.attr})")
+        if isinstance(n, (ast.Import, ast.ImportFrom)):
+            mod = getattr(n, "module", None) or ""
+            for al in n.names:
+                if al.name.split(".")[0] in _MEMO_NAMES or al.name in _MEMO_NAMES or mod.split(".")[0] in _MEMO_NAMES:
+                    fail(n, f"{rel}: memoisation import")
+    if whole:
+        for st in tree.body:
+            if isinstance(st, (ast.Assign, ast.AnnAssign, ast.AugAssign)):
+                names = {t.id for t in _targets(st) if isinstance(t, ast.Name)}
+                if not names or not names <= _MODULE_VARS.get(rel, set()):
+                    fail(st, f"{rel}: module-level variable (state shared by all runs)")
+    for st in tree.body:
+        if isinstance(st, ast.FunctionDef) and (whole or st.name in only):
+            _check_decorators(rel, st)
+            _check_function(rel, None, st)
+        elif isinstance(st, ast.ClassDef) and (whole or st.name in only):
+            _check_decorators(rel, st)
+            if st.name in _MODE_FIELDS:
+                fields = [b.target.id for b in st.body if isinstance(b, ast.AnnAssign) and isinstance(b.target, ast.Name)]
+                if fields != _MODE_FIELDS[st.name]:
+                    fail(st, f"{rel}: the fields of {st.name} must be {_MODE_FIELDS[st.name]}, found {fields} "
+                             "(a further field is state that a run could fill and a later run could read)")
+            for b in st.body:
+                # a field declaration or an immutable constant (enum member) is no state
+                if isinstance(b, ast.AugAssign) or (isinstance(b, (ast.Assign, ast.AnnAssign)) and b.value is not None
+                                                    and not isinstance(b.value, ast.Constant)):
+                    fail(b, f"{rel}: class-level variable in {st.name} (state shared by all runs)")
+                if isinstance(b, ast.ClassDef):
+                    fail(b, f"{rel}: nested class in {st.name}")
+                if isinstance(b, ast.FunctionDef):
+                    _check_decorators(rel, b)
+                    setter = any(_u(d).endswith(".setter") for d in b.decorator_list)
+                    init = _INIT_ATTRS.get((st.name, b.name))
+                    if init is not None:
+                        got = {t.attr for n in ast.walk(b) for t in _targets(n)
+                               if isinstance(t, ast.Attribute) and _u(t.value) == "self"}
+                        if got != init:
+                            fail(b, f"{rel}: {st.name}.__init__ must set exactly {sorted(init)}, found {sorted(got)}")
+                        _check_function(rel, st.name, b, allowed_self_attrs=init)
+                    elif setter:
+                        _check_function(rel, st.name, b, allowed_self_attrs={"_" + b.name})
+                    elif (st.name, b.name) == ("Observation", "_get_parameter_types"):
+                        _check_function(rel, st.name, b, allow_types=True)     # its shape is read by _parameter_types
+                    else:
+                        _check_function(rel, st.name, b)
+
+
+def _no_hidden_state(repo: Path, trees: dict) -> None:
+    for rel in (MISC, OBS, DASK, PVAL, EVAL):
+        _check_module(rel, trees.get(rel) or parse(repo, rel))
+    # key access of the processor (configured values are read through Processor.get on every run)
+    _check_module(PROC, parse(repo, PROC), whole=False, only=("_get_obj_att",))
+    proc = parse(repo, PROC)
+    for name in ("has", "get", "replace"):
+        fn = find_func(proc, name, "Processor")
+        _check_decorators(PROC, fn)
+        _check_function(PROC, "Processor", fn)
+
+
 def render(flags) -> str:
     b = " ".join("true" if f else "false" for f in flags)
     return (HEADER +
             "From PyxelV Require Import Model.ParamSpace.\n"
             "(* cf_name_fallback_full cf_name_stage3 cf_custom_dims_distinct cf_custom_range_optional "
             "cf_dask_custom_positional cf_dask_custom_scalar_is_placeholder cf_dask_product_dedup "
-            "cf_dask_sequential_rows *)\n"
+            "cf_dask_sequential_rows cf_types_fresh *)\n"
             f"Definition src_cfg : cfg := mkCfg {b}.\n")
 
 
@@ -309,9 +562,12 @@ def translate(repo: Path) -> str:
     positional, by_placeholder = _convert_custom_data(misc)
     dedup = _product_create_params(misc)
     seq_rows = _sequential_create_params(misc)
-    return render((fallback_full, stage3, dims_distinct, range_optional, positional, by_placeholder, dedup, seq_rows))
+    types_fresh = _parameter_types(obs)
+    _no_hidden_state(repo, {MISC: misc, OBS: obs})
+    return render((fallback_full, stage3, dims_distinct, range_optional, positional, by_placeholder, dedup, seq_rows,
+                   types_fresh))
 
 
 # the text for the unchanged tree (after the round-2 repairs); only used to keep a model available for the
 # failing-input search when the translation itself fails
-FALLBACK = render((True, True, True, True, True, True, False, False))
+FALLBACK = render((True, True, True, True, True, True, True, True, True))
